@@ -139,6 +139,7 @@ let dispatch op args = match op, args with
   | "where_s", [x; L m; y] -> let (md, sp) = op_where_s (zll x) (List.map bl m) (zi y) in L [vrows md; L (List.map vzl sp)]
   | "like", [x; c] -> let (md, sp) = op_like (zll x) (zi c) in L [L (List.map vzl md); L (List.map vzl sp)]
   | "concat1", [L xs] -> let r = L (List.map vzl (op_concat1 (List.map zll xs))) in L [r; r]
+  | "fastidx", [st; ls] -> let (m, sp) = op_fastidx (zl st) (zl ls) in L [vzl m; vzl sp]
   | "argmax", [x] -> let (m, s) = op_argmax (zll x) in L [vzl m; vzl s]
   | "argmin", [x] -> let (m, s) = op_argmin (zll x) in L [vzl m; vzl s]
   | "rl2", (L [I kind; rows]) :: op :: rest ->
